@@ -166,9 +166,29 @@ func isFatalBlock(b *ssa.BasicBlock) bool {
 			if core.IsLogCall(com) && (strings.HasPrefix(name, "Fatal") || strings.HasPrefix(name, "Panic")) {
 				return true
 			}
+			// a function of the module that never returns: all its exits are panics
+			if cal := com.StaticCallee(); cal != nil && neverReturns(cal, 0) {
+				return true
+			}
 		}
 	}
 	return false
+}
+
+// neverReturns: fn has a body without any return instruction (every path ends in panic, or in a call of such a
+// function followed by nothing).
+func neverReturns(fn *ssa.Function, depth int) bool {
+	if fn == nil || fn.Blocks == nil || depth > 2 || fn.Recover != nil {
+		return false
+	}
+	for _, b := range fn.Blocks {
+		for _, in := range b.Instrs {
+			if _, isRet := in.(*ssa.Return); isRet {
+				return false
+			}
+		}
+	}
+	return true
 }
 
 // accumulateThenTest recognises the fan-out idiom: inside a goroutine body the non-nil edge appends the
